@@ -27,6 +27,32 @@ M = {
  'c07-offbyone': ('core/wl/protocol.py', "    arg = arg_list[arg_index]", "    arg = arg_list[min(arg_index + 1, len(arg_list) - 1)]"),
  'c07-eq': ('core/wl/protocol.py', "            if entry.value & arg_value:", "            if entry.value == arg_value:"),
  'c07-version': ('core/wl/protocol.py', "existing.version < interface.version", "existing.version > interface.version"),
+
+ 'c10-noclear': ('backends/gdb_plugin/plugin.py', "        if self.state.paused():\n            self.state.resume_requested()\n", ""),
+ 'c10-stopconst': ('backends/gdb_plugin/plugin.py', "        return self.plugin.paused()", "        return False"),
+ 'c10-break-ignores-sel': ('frontends/tui/controller.py', "            if self.stop_matcher.matches(message):\n                self.out.show(color(alert_color, '    Stopped at ') + str(message).strip())\n                self.ui_state_listener.pause_requested()", "            pass\n        if self.stop_matcher.matches(message):\n            self.out.show(color(alert_color, '    Stopped at ') + str(message).strip())\n            self.ui_state_listener.pause_requested()"),
+ 'c10-quit-continues': ('backends/gdb_plugin/plugin.py', "        if self.state.should_quit():\n            gdb.execute('quit')\n        elif not self.state.paused():", "        if not self.state.paused():"),
+ 'c10-prompt': ('frontends/tui/terminal_ui.py', "while self.state.paused() and not self.state.should_quit():", "while self.state.paused():"),
+ 'c15-noreopen': ('backends/gdb_plugin/plugin.py', "        self.connections.pop(connection_id, None)\n", ""),
+ 'c15-thread-raises': ('backends/gdb_plugin/plugin.py', "                self.out.warn(", "                raise RuntimeError("),
+ 'c09-uint': ('backends/gdb_plugin/extract.py', "            value = closure_args[i][c]\n", "            value = closure_args[i]['i' if c == 'u' else c]\n"),
+ 'c09-fixed': ('backends/gdb_plugin/extract.py', "- (3LL << 43)'))", "- (3LL << 43)')) * 2"),
+ 'c09-skip': ('backends/gdb_plugin/extract.py', "type_codes = {i: True for i in ['i', 'u', 'f', 's', 'o', 'n', 'a', 'h']}", "type_codes = {i: True for i in ['i', 'u', 'f', 's', 'o', 'n', 'a', 'h', '?']}"),
+ 'c09-newid-client': ('backends/gdb_plugin/extract.py', "                if new_id_is_actually_an_object:", "                if False:"),
+ 'c13-env': ('backends/libwayland_debug_output/runner.py', "        env['WAYLAND_DEBUG'] = '1'\n", ""),
+ 'c13-status': ('backends/libwayland_debug_output/runner.py', "    return subprocess.returncode", "    return 0 if subprocess.returncode == 0 else 1"),
+ 'c13-argv': ('backends/libwayland_debug_output/runner.py', "            self.args.command_args,\n", "            [a for a in self.args.command_args if a != '-C'],\n"),
+ 'c13-lastline': ('backends/libwayland_debug_output/parse.py', "            if line == '':\n                break", "            if line == '' or not line.endswith('\\n'):\n                break"),
+ 'c19-second': ('frontends/tui/arguments.py', "                if args[i] == alias:\n                    return (args[:i], command_id, args[i+1:])", "                if args[i] == alias:\n                    return (args[:i], command_id, [a for a in args[i+1:] if a != '--'])"),
+ 'c19-usage': ('frontends/tui/arguments.py', "    elif len(modes) > 1:", "    elif len(modes) > 2:"),
+ 'c19-badf': ('frontends/tui/arguments.py', "            raise RuntimeError('invalid filter matcher: ' + str(e))", "            filter_matcher = matcher.always"),
+ 'c14-letters': ('core/letter_id_generator.py', "        result = (result + 1) * 26", "        result = (result + 1) * 26 if len(text) < 3 else (result + 1) * 26 + (1 if result > 700 else 0)"),
+ 'c14-genmatch': ('core/matcher.py', "        generation = obj.generation if obj.generation is not None else 0\n        return self.wrapped.matches((obj.id, generation))", "        generation = obj.generation if obj.generation is not None else 0\n        return self.wrapped.matches((obj.id, min(generation, 25)))"),
+ 'c05-neg': ('core/matcher.py', "        if result:\n            for matcher in self.negative:\n                for arg in message:", "        if False:\n            for matcher in self.negative:\n                for arg in message:"),
+ 'c05-wild': ('core/matcher.py', "        re_pattern = r'^' + re.escape(pattern).replace(r'\\*', '.*') + r'$'", "        re_pattern = r'^' + re.escape(pattern).replace(r'\\*', '.*')"),
+ 'c05-new': ('core/matcher.py', "                if isinstance(arg, wl.Arg.Object) and arg.is_new and self.obj_matcher.matches(arg.obj):", "                if isinstance(arg, wl.Arg.Object) and self.obj_matcher.matches(arg.obj):"),
+ 'c01-negint': ('backends/libwayland_debug_output/parse.py', "        int_re = r'(?P<int>-?\\d+)'", "        int_re = r'(?P<int>\\d+)'"),
+ 'c01-conn': ('backends/libwayland_debug_output/parse.py', "        conn_re = r'( \\<(?P<conn>\\w+)\\>)?'", "        conn_re = r'( \\<(?P<conn>\\d)\\>)?'"),
 }
 name = sys.argv[1]
 f, old, new = M[name]
